@@ -63,12 +63,17 @@ func NewChecker(ctx context.Context, metrics *Store, threshold float64) *Checker
 func (mc *Checker) CheckPeers(peers []peer.ID) error {
 	for _, name := range mc.metrics.MetricNames() {
 		for _, peer := range peers {
-			for _, metric := range mc.metrics.PeerMetricAll(name, peer) {
-				if mc.FailedMetric(metric.Name, peer) {
-					err := mc.alert(peer, metric.Name)
-					if err != nil {
-						return err
-					}
+			// Check each metric name once per peer, and only for
+			// peers we hold metrics for. Checking once per stored
+			// metric would re-trigger alerts for the same failure
+			// (one for every two metrics in the window).
+			if len(mc.metrics.PeerMetricAll(name, peer)) == 0 {
+				continue
+			}
+			if mc.FailedMetric(name, peer) {
+				err := mc.alert(peer, name)
+				if err != nil {
+					return err
 				}
 			}
 		}
